@@ -9,7 +9,7 @@ From Coq Require Import QArith Lia ZifyBool.
 Open Scope Z_scope.
 Local Arguments N.eqb : simpl never.
 
-(* ---------- restriction to candidate columns only removes matches ---------- *)
+(* ---------- non-negated leaves: restriction to candidate columns only removes matches ---------- *)
 Lemma existsb_impl {A} (f g : A -> bool) l :
   (forall x, f x = true -> g x = true) -> existsb f l = true -> existsb g l = true.
 Proof.
@@ -17,24 +17,17 @@ Proof.
   intros E. apply orb_true_iff in E. apply orb_true_iff. destruct E as [E|E]; [left; apply H; exact E|right; apply IH; exact E].
 Qed.
 
-Lemma impl_atom_in_le cs a ev : impl_atom_in cs a ev = true -> impl_atom a ev = true.
-Proof.
-  unfold impl_atom. destruct a as [f o l ci | w n | o l]; simpl; try (intros H; exact H).
-  apply existsb_impl. intros [k v] H. simpl in *. apply andb_true_iff in H. destruct H as [_ H]. exact H.
-Qed.
+Definition positive_atom (a : atom) : bool := match a with AAny _ _ neg => negb neg | _ => true end.
 
-Lemma peval_in_le cs e ev : peval_in cs e ev = true -> peval e ev = true.
+(* for a leaf that is not a negated all-column comparison, "matches nothing on all columns" gives the None case of
+   cmi_sound_on (matches nothing on any column list) *)
+Lemma impl_atom_in_le cs a ev : positive_atom a = true -> impl_atom a ev = false -> impl_atom_in cs a ev = false.
 Proof.
-  unfold peval. induction e as [a | l IHl r IHr | l IHl r IHr]; cbn [peval_in].
-  - apply impl_atom_in_le.
-  - intros H. apply andb_true_iff in H. destruct H as [H1 H2]. rewrite (IHl H1), (IHr H2). reflexivity.
-  - intros H. apply orb_true_iff in H. destruct H as [H|H]; [rewrite (IHl H)|rewrite (IHr H), orb_true_r]; reflexivity.
-Qed.
-
-Lemma sel_in_le cs tr e ev : sel tr e ev = false -> sel_in cs tr e ev = false.
-Proof.
-  unfold sel, sel_in. destruct (check_in_range tr (ev_ts ev)); simpl; [|reflexivity].
-  intros H. destruct (peval_in cs e ev) eqn:E; [|reflexivity]. rewrite (peval_in_le cs e ev E) in H. discriminate.
+  unfold impl_atom. destruct a as [f o l ci | w n | o l n]; cbn [positive_atom impl_atom_in]; try (intros _ H; exact H).
+  intros Hn. destruct n; [discriminate|]. rewrite !Bool.xorb_false_l. intros H.
+  destruct (existsb (fun kv : N * stored => col_in cs (fst kv) && impl_cmp true o (snd kv) l) (ev_fields ev)) eqn:E; [|reflexivity].
+  rewrite <- H. symmetry. revert E. apply existsb_impl. intros [k v] Hk. cbn [fst snd col_in] in *.
+  apply andb_true_iff in Hk. destruct Hk as [_ Hk]. exact Hk.
 Qed.
 
 (* ---------- JoinRequest as a map operation ---------- *)
@@ -108,17 +101,18 @@ Qed.
 (* ---------- one block ---------- *)
 Definition sub_cols (cs cs' : list N) : Prop := forall c, mem_col c cs = true -> mem_col c cs' = true.
 
-(* what a plan entry promises for the records of a block: no entry = the expression selects none of them; an entry =
+(* what a plan entry promises for the records of a block: no entry = the expression selects none of them, whatever
+   columns are read (a negated all-column comparison is not monotone in the columns); an entry =
    the expression evaluated on the listed columns, or on any larger list, selects what the unrestricted one selects *)
 Definition blk_ok (tr : trange) (e : pexpr) (evs : list event) (o : option (list N)) : Prop :=
   match o with
-  | None => forall ev, In ev evs -> sel tr e ev = false
+  | None => forall cs ev, In ev evs -> sel_in cs tr e ev = false
   | Some cs => forall cs', sub_cols cs cs' -> forall ev, In ev evs -> sel_in (Some cs') tr e ev = sel tr e ev
   end.
 
-Lemma blk_ok_of_false tr e evs o : (forall ev, In ev evs -> sel tr e ev = false) -> blk_ok tr e evs o.
+Lemma blk_ok_of_false tr e evs o : (forall cs ev, In ev evs -> sel_in cs tr e ev = false) -> blk_ok tr e evs o.
 Proof.
-  intros H. destruct o as [cs|]; [|exact H]. intros cs' _ ev Hin. rewrite (H ev Hin). apply sel_in_le. exact (H ev Hin).
+  intros H. destruct o as [cs|]; [|exact H]. intros cs' _ ev Hin. rewrite (H (Some cs') ev Hin). symmetry. exact (H None ev Hin).
 Qed.
 
 Lemma sub_union_l a c cs' : sub_cols (union_cols a c) cs' -> sub_cols a cs'.
@@ -149,8 +143,8 @@ Proof.
   intros Ha Hb. destruct x as [ca|]; [destruct y as [cb|]|]; cbn [and_entry blk_ok] in *.
   - intros cs' Hs ev Hin. rewrite sel_and, sel_and0.
     rewrite (Ha cs' (sub_union_l _ _ _ Hs) ev Hin), (Hb cs' (sub_union_r _ _ _ Hs) ev Hin). reflexivity.
-  - intros ev Hin. rewrite sel_and0. rewrite (Hb ev Hin). apply andb_false_r.
-  - intros ev Hin. rewrite sel_and0. rewrite (Ha ev Hin). reflexivity.
+  - intros cs ev Hin. rewrite sel_and. rewrite (Hb cs ev Hin). apply andb_false_r.
+  - intros cs ev Hin. rewrite sel_and. rewrite (Ha cs ev Hin). reflexivity.
 Qed.
 
 Lemma blk_or tr a b evs x y :
@@ -160,10 +154,10 @@ Proof.
   - intros cs' Hs ev Hin. rewrite sel_or, sel_or0.
     rewrite (Ha cs' (sub_union_l _ _ _ Hs) ev Hin), (Hb cs' (sub_union_r _ _ _ Hs) ev Hin). reflexivity.
   - intros cs' Hs ev Hin. rewrite sel_or, sel_or0.
-    rewrite (Ha cs' Hs ev Hin), (Hb ev Hin), (sel_in_le (Some cs') tr b ev (Hb ev Hin)). reflexivity.
+    rewrite (Ha cs' Hs ev Hin), (Hb (Some cs') ev Hin). change (sel tr b ev) with (sel_in None tr b ev). rewrite (Hb None ev Hin). reflexivity.
   - intros cs' Hs ev Hin. rewrite sel_or, sel_or0.
-    rewrite (Hb cs' Hs ev Hin), (Ha ev Hin), (sel_in_le (Some cs') tr a ev (Ha ev Hin)). reflexivity.
-  - intros ev Hin. rewrite sel_or0. rewrite (Ha ev Hin), (Hb ev Hin). reflexivity.
+    rewrite (Hb cs' Hs ev Hin), (Ha (Some cs') ev Hin). change (sel tr a ev) with (sel_in None tr a ev). rewrite (Ha None ev Hin). reflexivity.
+  - intros cs ev Hin. rewrite sel_or. rewrite (Ha cs ev Hin), (Hb cs ev Hin). reflexivity.
 Qed.
 
 Lemma blk_and_comm tr a b evs o : blk_ok tr (PAnd a b) evs o -> blk_ok tr (PAnd b a) evs o.
@@ -171,14 +165,14 @@ Proof.
   destruct o as [cs|]; cbn [blk_ok].
   - intros H cs' Hs ev Hin. specialize (H cs' Hs ev Hin).
     rewrite sel_and, sel_and0 in *. rewrite (andb_comm (sel_in (Some cs') tr b ev)), (andb_comm (sel tr b ev)). exact H.
-  - intros H ev Hin. specialize (H ev Hin). rewrite sel_and0 in *. rewrite andb_comm. exact H.
+  - intros H cs ev Hin. specialize (H cs ev Hin). rewrite sel_and in *. rewrite andb_comm. exact H.
 Qed.
 Lemma blk_or_comm tr a b evs o : blk_ok tr (POr a b) evs o -> blk_ok tr (POr b a) evs o.
 Proof.
   destruct o as [cs|]; cbn [blk_ok].
   - intros H cs' Hs ev Hin. specialize (H cs' Hs ev Hin).
     rewrite sel_or, sel_or0 in *. rewrite (orb_comm (sel_in (Some cs') tr b ev)), (orb_comm (sel tr b ev)). exact H.
-  - intros H ev Hin. specialize (H ev Hin). rewrite sel_or0 in *. rewrite orb_comm. exact H.
+  - intros H cs ev Hin. specialize (H cs ev Hin). rewrite sel_or in *. rewrite orb_comm. exact H.
 Qed.
 
 (* ---------- a file: every block ---------- *)
@@ -211,10 +205,10 @@ Proof.
   intros Ha Hb nb Hin. rewrite at_join_and. specialize (Ha nb Hin). specialize (Hb nb Hin).
   destruct P as [p|]; [destruct Q as [q|]|].
   - apply blk_and; assumption.
-  - cbn [at_block] in Hb. apply blk_ok_of_false. intros ev Hev.
-    rewrite sel_and0. rewrite (Hb ev Hev). apply andb_false_r.
-  - cbn [at_block] in Ha. apply blk_ok_of_false. intros ev Hev.
-    rewrite sel_and0. rewrite (Ha ev Hev). reflexivity.
+  - cbn [at_block] in Hb. apply blk_ok_of_false. intros cs ev Hev.
+    rewrite sel_and. rewrite (Hb cs ev Hev). apply andb_false_r.
+  - cbn [at_block] in Ha. apply blk_ok_of_false. intros cs ev Hev.
+    rewrite sel_and. rewrite (Ha cs ev Hev). reflexivity.
 Qed.
 
 Lemma plan_or tr a b blks P Q :
@@ -304,8 +298,8 @@ Proof.
   destruct (block_overlaps tr (snd nb)) eqn:Eo.
   - destruct (cmi a (snd nb)) as [cs|]; cbn [blk_ok].
     + intros cs' Hsub ev Hev. unfold sel_in, sel, peval. cbn [peval_in]. rewrite (Hs cs' Hsub ev Hev). reflexivity.
-    + intros ev Hev. unfold sel, peval. cbn [peval_in]. fold (impl_atom a ev). rewrite (Hs ev Hev). apply andb_false_r.
-  - cbn [blk_ok]. intros ev Hev. unfold sel. rewrite (block_time_pruned tr _ ev Eo Hev). reflexivity.
+    + intros cs ev Hev. unfold sel_in. cbn [peval_in]. rewrite (Hs cs ev Hev). apply andb_false_r.
+  - cbn [blk_ok]. intros cs ev Hev. unfold sel_in. rewrite (block_time_pruned tr _ ev Eo Hev). reflexivity.
 Qed.
 
 (* ---------- the whole tree ---------- *)
@@ -363,7 +357,7 @@ Proof.
   destruct (at_block (plan_of cmi tr (push_not false e) blks) (fst nb)) as [cs|]; cbn [blk_ok] in Hb.
   - rewrite exec_in_pointwise, pick_map. apply filter_ext_in'. intros ev Hev.
     apply Hb; [intros c Hc; exact Hc|exact Hev].
-  - symmetry. apply filter_none. exact Hb.
+  - symmetry. apply filter_none. exact (Hb None).
 Qed.
 
 (* A AND B / A OR B on the planned search: intersection / union of the planned results of A and of B *)
@@ -401,12 +395,12 @@ Definition join_or_keep (p q : plan) : plan :=
 Definition ex_blk : list event :=
   [mkEv 0%N 10 [(0%N, SInt 0); (1%N, SInt 404); (2%N, SInt 100000)];
    mkEv 1%N 11 [(0%N, SInt 1); (1%N, SInt 200); (2%N, SInt 500)]].
-Definition ex_e : expr := EOr (EAtom (AAny Eq (LNum (NLInt 404)))) (EAtom (AAny Eq (LNum (NLInt 500)))).
+Definition ex_e : expr := EOr (EAtom (AAny Eq (LNum (NLInt 404)) false)) (EAtom (AAny Eq (LNum (NLInt 500)) false)).
 
 Example plan_union_needed :
   let tr := mkTr 0 100 in
-  let pa := leaf_plan cmi_model tr (AAny Eq (LNum (NLInt 404))) [(0%N, ex_blk)] in
-  let pb := leaf_plan cmi_model tr (AAny Eq (LNum (NLInt 500))) [(0%N, ex_blk)] in
+  let pa := leaf_plan cmi_model tr (AAny Eq (LNum (NLInt 404)) false) [(0%N, ex_blk)] in
+  let pb := leaf_plan cmi_model tr (AAny Eq (LNum (NLInt 500)) false) [(0%N, ex_blk)] in
   pa = Some [(0%N, [1%N])] /\ pb = Some [(0%N, [2%N])] /\
   join_file LOr pa pb = Some [(0%N, [1%N; 2%N])] /\
   ids (plan_select cmi_model ex_e tr [(0%N, ex_blk)]) = [0%N; 1%N] /\
@@ -419,11 +413,13 @@ Lemma pass_z_sound o l mn mx v :
   mn <= v <= mx -> zcmp o v l = true -> pass_z o l mn mx = true.
 Proof. intros Hv. destruct o; unfold zcmp, pass_z; lia. Qed.
 
-(* NOT on an all-column comparison is not the complement: {a:404, b:1} is in `404` and in `NOT 404` *)
-Theorem not_allcolumn_refuted :
-  exists a tr evs ev, In ev evs /\ In ev (impl_select a tr evs) /\ In ev (impl_select (ENot a) tr evs).
-Proof.
-  exists (EAtom (AAny Eq (LNum (NLInt 404)))), (mkTr 0 10), [mkEv 7%N 5 [(1%N, SInt 404); (2%N, SInt 1)]],
-         (mkEv 7%N 5 [(1%N, SInt 404); (2%N, SInt 1)]).
-  split; [left; reflexivity|]. split; vm_compute; left; reflexivity.
-Qed.
+(* a negated all-column comparison keeps every block, with the columns whose range passes the positive comparison:
+   `NOT 404` on the block of the example has the plan {0:[1]} and returns the record without 404 *)
+Example plan_negated_leaf :
+  let tr := mkTr 0 100 in
+  leaf_plan cmi_model tr (AAny Eq (LNum (NLInt 404)) true) [(0%N, ex_blk)] = Some [(0%N, [1%N])] /\
+  leaf_plan cmi_model tr (AAny Eq (LNum (NLInt 777777)) true) [(0%N, ex_blk)] = Some [(0%N, [])] /\
+  leaf_plan cmi_model tr (AAny Eq (LNum (NLInt 777777)) false) [(0%N, ex_blk)] = None /\
+  ids (plan_select cmi_model (ENot (EAtom (AAny Eq (LNum (NLInt 404)) false))) tr [(0%N, ex_blk)]) = [1%N] /\
+  ids (plan_select cmi_model (ENot (EAtom (AAny Eq (LNum (NLInt 777777)) false))) tr [(0%N, ex_blk)]) = [0%N; 1%N].
+Proof. repeat split; vm_compute; reflexivity. Qed.
